@@ -396,6 +396,14 @@ func genC01(g *G) {
 	for _, in := range revLookAlikes {
 		add(in, "")
 	}
+	// hosts lines with a field that consists of Unicode white space other than space and tab
+	for _, ws := range []string{"\u00a0", "\u0085", "\u3000", "\u2003\u00a0", "\u1680", "\v", "\f"} {
+		add("1.2.3.4 "+ws, "")
+		add("1.2.3.4 a "+ws+" b", "")
+		add("1.2.3.4 "+ws+" "+ws, "")
+		add("::1\t"+ws+"\tlocalhost", "")
+		add(ws, ws)
+	}
 	// addresses whose text is long because of the zone
 	for _, a := range []string{"fe80:1111:2222:3333:4444:5555:6666:7777%enp0s31f6", "fe80::1%" + strings.Repeat("z", 40), "fe80::1%" + strings.Repeat("z", 300), "::ffff:1.2.3.4%" + strings.Repeat("q", 60)} {
 		add(a, "")
